@@ -1,259 +1,377 @@
 """C27 - DNS replies correspond to client queries; TCP framing ignores segmentation.
 
+Every clause is decided by INTERPRETATION of the layer's code (its AST, through the model; nothing is imported or run): `DNSLayer`
+is instantiated by interpreting its constructor chain, events are delivered through the handler installed at that moment (as
+`Layer.handle_event` does), every generator runs eagerly and every yielded command is answered by the rule's environment (hooks may
+be given an addon action, `OpenConnection` an outcome).  Helper methods, renamed locals, `.get` vs `try/except KeyError`, `match`,
+extra logging / assertions / optional parameters are therefore all analysed through their *behaviour*; the rule never looks at the
+shape of `state_query`, `handle_*`, `unpack_message` or `pack_message`.
+
+The DNS wire codec is abstracted (it is C25/C26's subject): `DNSMessage.unpack` is replaced by a total toy decoder that yields
+records bound to the repository's `DNSMessage` class (so `fail()` & co. are interpreted from the repository), `DNSMessage.packed`
+by the matching toy encoder.  The framing of TCP streams handed to the layer is produced by the rule itself (RFC 1035 4.2.2:
+two-byte big-endian length).
+
 Decided:
-  R27.1  symbolic path analysis of `DNSLayer.state_query`, case-split on the direction flag: a message from the *server*
-         never constructs a DNSFlow, never registers one, never reaches handle_request, and reaches handle_response only
-         with the flow found under `self.flows[msg.id]` (never on the KeyError path) - so no request-less flow is ever
-         shown to addons (F-C27, repaired).  A message from the *client* reaches handle_request only with the flow
-         registered / found under that message's id, and never handle_response.  handle_request stores the query in
-         flow.request before any hook fires.
-  R27.2  `DNSMessage.fail` builds its result from self.id / self.op_code / self.recursion_desired / self.questions,
-         query=False, the given response code; `handle_error` sends `flow.request.fail(SERVFAIL)` (a non-NOERROR code)
-         to the *client* after the error hook.
-  R27.3  finite evaluation: `DNSLayer.unpack_message`'s AST is interpreted on concrete length-prefixed streams under
-         EVERY segmentation (all 2^(n-1) compositions of the stream) and with both directions interleaved: the extracted
-         message sequence and the retained tail never depend on the segmentation, directions do not share a buffer, a
-         zero length prefix raises the exception class `state_query` handles, datagrams are not buffered.  On that
-         exception `state_query` closes the sender's connection, processes nothing and enters `state_done`, which is silent.
-NOT decided: that an upstream reply has the same *question* as the query with its id (the layer does not compare them).
+  R27.1  bounded model check against a reference model: for EVERY short sequence (quick: 7 events up to length 2 and the 5 core events up
+         to length 3 - starting with a query - over UDP, core events up to length 2 over TCP; thorough: up to length 3 / 4 over UDP, 3 over TCP) of {client query
+         id A, the same id A with a *different question*, client query id B, a query id A that an addon fails (flow.error => SERVFAIL),
+         upstream reply id A (carrying the question of the most recent query with that id), reply id B, reply with an id nobody asked
+         for}, plus a list of longer id re-use sequences:
+           * a client query fires exactly one DnsRequestHook, before any other hook, whose flow.request IS that query when it fires;
+           * a query whose id is new, or belongs to a *completed* exchange (answered or failed; F-C27b, repaired), is a query of its
+             own: the flow of its request hook has no response / error, only that hook fires, it is asked upstream and nothing is
+             sent to the client; an *unanswered* re-sent query may keep its flow and is not constrained beyond the first bullet;
+           * an upstream reply whose id is outstanding fires exactly one DnsResponseHook for a flow whose request is the client's
+             most recent query with that id and whose response is that reply, and exactly one message goes to the client: a response
+             with that id and the question of that query; a further reply for a completed exchange is delivered likewise or dropped;
+           * an upstream reply with an id nobody asked for fires no hook and sends nothing (F-C27, repaired);
+           * no hook ever fires for a flow without a client query in flow.request; every message sent to the client is a response
+             with the question of the client's MOST RECENT query with that id.
+  R27.2  `DNSMessage.fail` is interpreted on a matrix of queries (ids, opcodes, RD, question lists) x error codes: the result is a
+         response (query=False) with id / op_code / recursion_desired / questions of the query and the given code.  End to end, for
+         "no upstream address", "addon sets flow.error" and "OpenConnection fails" (UDP and TCP): after the DnsErrorHook exactly
+         one message goes to the *client*: QR=1, rcode = response_codes.SERVFAIL (!= NOERROR), id / opcode / RD / question of the
+         client's query.
+  R27.3  finite evaluation: length-prefixed streams are delivered under EVERY segmentation (all 2^(n-1) compositions), from either
+         side and with both directions interleaved: the sequence of byte strings handed to the codec never depends on the
+         segmentation and the directions do not share a buffer; a 258-byte frame pins the byte order of the prefix; UDP datagrams
+         map one-to-one and are never buffered.  A zero length prefix (under every segmentation) or a message the codec rejects
+         makes the layer close the *sender's* connection without raising, nothing after the malformed prefix is ever decoded, and
+         afterwards the layer is silent (further data and close events cause no command and no decoding).
+NOT decided: that an upstream reply has the same *question* as the query with its id (the layer does not compare them); the wire
+codec itself; what addons do to a message (only the three error sources of R27.2 are played).
 """
 
 from __future__ import annotations
 
 import ast
-import struct as pystruct
+import itertools
 
 from ..core import AnalysisError
-from ..core import norm
-from ..model import attr_chain
-from ..model import last_attr
-from ..model import walk_in_order
-from ..model import yields_in
-from ..paths import C
-from ..paths import is_const
-from ..paths import traces_of
+from ..pyint import ClassRef
+from ..pyint import Raised
+from ..pyint import Rec
 from ..selftest import Mutant
-from ._helpers_D import attr_of
-from ._helpers_D import Concrete
+from ._helpers_C import CachedModel
+from ._helpers_C import GenDone
+from ._helpers_C import LayerInterp
+from ._helpers_C import OpenRec
 from ._helpers_D import int_constants
-from ._helpers_D import Raised
-from ._helpers_D import show
-from ._helpers_D import sym
-from ._helpers_D import SymSpec
-from ._helpers_D import call_args
-from ._helpers_D import last_attr_name
-from ._helpers_D import SendSpec
 
 PROP = "C27"
 REG = {
     "strength": "partial",
-    "technique": "symbolic path analysis of DNSLayer.state_query (case split on direction, exception edges), constructor provenance of "
-    "DNSMessage.fail, finite evaluation of unpack_message's AST over all segmentations of length-prefixed streams",
-    "claim": "flows are created only for client queries and responses are matched by message id to a registered flow; synthesised SERVFAIL "
-    "copies id/opcode/RD/questions and goes to the client; TCP frame extraction is independent of segmentation and direction, malformed "
+    "technique": "interpretation of DNSLayer (constructor, event handlers, helpers, DNSMessage.fail) from its AST against an environment that "
+    "answers every command; bounded model check of short event sequences against a reference model of the property; finite evaluation of "
+    "the TCP framing over all segmentations of length-prefixed streams",
+    "claim": "flows are reported only for client queries and replies are matched by message id to the client's query; synthesised SERVFAIL "
+    "copies id/opcode/RD/questions and goes to the client; TCP frame extraction is independent of segmentation and direction, a malformed "
     "length closes the sender and stops the layer.",
-    "note": "struct.Struct semantics are taken from the Python stdlib; DNSMessage.unpack is an opaque identity in the framing evaluation.",
+    "note": "struct / time / uuid come from the Python stdlib (time and uuid as deterministic stubs); the DNS wire codec is replaced by a toy "
+    "bijection (DNSMessage.unpack / .packed), event sequences and streams are bounded (stated in the evidence).",
 }
 
 LAYER = "mitmproxy/proxy/layers/dns.py"
 DNS = "mitmproxy/dns.py"
 RC = "mitmproxy/net/dns/response_codes.py"
+EVENTS = "mitmproxy/proxy/events.py"
 
-
-class QuerySpec(SendSpec):
-    """state_query: implicit exception edges of the two try blocks + flow provenance events"""
-
-    def raises_into(self, stmt, handler_names, st):
-        out = []
-        for n in ast.walk(stmt):
-            if isinstance(n, ast.Subscript) and isinstance(n.ctx, ast.Load) and attr_chain(n.value) == "self.flows" and "KeyError" in handler_names:
-                out.append("KeyError")
-            if isinstance(n, ast.Call) and attr_chain(n.func) == "self.unpack_message" and "error" in handler_names:
-                out.append("error")
-        return out
-
-    def handler_event(self, h, ename, st):
-        return ("except", ename)
-
-    def stmt_events(self, stmt, st, depth):
-        out = SendSpec.stmt_events(self, stmt, st, depth)
-        if isinstance(stmt, ast.Assign):
-            if isinstance(stmt.value, ast.Call) and last_attr(stmt.value.func) == "DNSFlow":
-                out.append(("new_flow",))
-            for t in stmt.targets:
-                if isinstance(t, ast.Subscript):
-                    out.append(("store", self.value(t.value, st, depth), self.value(t.slice, st, depth), self.value(stmt.value, st, depth)))
-                elif attr_chain(t) == "self._handle_event":
-                    out.append(("state", attr_chain(stmt.value)))
-        v = stmt.value if isinstance(stmt, (ast.Expr, ast.Assign)) else None
-        if isinstance(v, ast.Yield) and isinstance(v.value, ast.Call) and last_attr(v.value.func) in ("CloseConnection", "CloseTcpConnection") and v.value.args:
-            out.append(("close", self.value(v.value.args[0], st, depth)))
-        return out
-
-
-def direction_flag(sq) -> str:
-    """name of the local that holds `event.connection is/== self.context.client`"""
-    hits = []
-    for n in walk_in_order(sq):
-        if isinstance(n, ast.Assign) and len(n.targets) == 1 and isinstance(n.targets[0], ast.Name) and isinstance(n.value, ast.Compare):
-            c = n.value
-            if len(c.ops) == 1 and isinstance(c.ops[0], (ast.Is, ast.Eq)) and {attr_chain(c.left), attr_chain(c.comparators[0])} == {"event.connection", "self.context.client"}:
-                hits.append(n.targets[0].id)
-    if len(hits) != 1:
-        raise AnalysisError(f"state_query: direction flag `x = event.connection is self.context.client` not found uniquely ({hits})")
-    return hits[0]
-
-
-def check_r271(ctx):
-    sq = ctx.func(LAYER, "DNSLayer.state_query")
-    flag = direction_flag(sq)
-    where = (LAYER, "DNSLayer.state_query", sq)
-    seen = {True: 0, False: 0}
-    for from_client in (True, False):
-        spec = QuerySpec(loop_vars=SymSpec.loop_vars_of(sq), forced={flag: from_client})
-        traces, eng = traces_of(sq, spec)
-        ctx.paths += len(traces)
-        side = "client" if from_client else "server"
-        for trace, how, st in traces:
-            if how != "return":
-                continue
-            subs = [e for e in trace if e[0] == "sub" and e[1] in ("self.handle_request", "self.handle_response")]
-            news = [e for e in trace if e[0] == "new_flow"]
-            stores = [e for e in trace if e[0] == "store" and e[1] == sym("self.flows")]
-            if not from_client:
-                ctx.check(not news and not stores, "R27.1", where, "a server message creates / registers a DNSFlow",
-                          "a message received from the upstream server constructs or registers a DNSFlow: an unsolicited reply becomes a request-less flow",
-                          desc="server path: no DNSFlow construction / registration")
-            for e in subs:
-                seen[from_client] += 1
-                want = "self.handle_request" if from_client else "self.handle_response"
-                if e[1] != want:
-                    ctx.fail("R27.1", where, f"message from the {side} handled by {e[1][5:]}",
-                             f"a message received from the {side} is passed to {e[1]}: queries and replies are confused")
-                    continue
-                if len(e[2]) != 2:
-                    raise AnalysisError(f"state_query: unexpected arguments for {e[1]}: {e[2]}")
-                flow_v, msg_v = e[2]
-                key = attr_of(msg_v, "id")
-                looked_up = flow_v == ("idx", sym("self.flows"), key)
-                fresh = isinstance(flow_v, tuple) and flow_v[0] == "call" and last_attr_name(flow_v) == "DNSFlow"
-                registered = any(s[2] == key and s[3] == flow_v for s in stores)
-                if from_client:
-                    ok = looked_up or (fresh and registered)
-                    ctx.check(ok, "R27.1", where, "handle_request(flow, msg): flow is self.flows[msg.id] or a new flow registered under msg.id",
-                              f"query is handled with flow {show(flow_v)} which is neither looked up nor registered under {show(key)} (stores: {[(show(s[2])) for s in stores]}): the reply cannot be matched",
-                              desc="client path: flow looked up / registered under msg.id")
-                else:
-                    ctx.check(looked_up, "R27.1", where, "handle_response(flow, msg): flow is self.flows[msg.id]",
-                              f"a reply from the server is handled with flow {show(flow_v)}, not the flow registered for its id {show(key)}: "
-                              "dns_response fires for a flow without the matching request / the reply goes out unmatched",
-                              desc="server path: flow found under msg.id")
-    ctx.require(seen[True] >= 2 and seen[False] >= 1 or ctx.findings, f"state_query: delegation paths not found {seen}")
-    # the query is stored before any hook
-    hr = ctx.func(LAYER, "DNSLayer.handle_request")
-    first = None
-    for stmt in hr.body:
-        if isinstance(stmt, ast.Expr) and isinstance(stmt.value, ast.Constant):
-            continue
-        first = stmt
-        break
-    ok = isinstance(first, ast.Assign) and [attr_chain(t) for t in first.targets] == ["flow.request"] and attr_chain(first.value) == "msg"
-    if not ok:
-        # accept any position as long as it precedes the first hook on every path
-        class S(SendSpec):
-            def stmt_events(self, stmt, st, depth):
-                out = SendSpec.stmt_events(self, stmt, st, depth)
-                if isinstance(stmt, ast.Assign) and any(attr_chain(t) == "flow.request" for t in stmt.targets):
-                    out.append(("set_request", self.value(stmt.value, st, depth)))
-                return out
-
-        traces, eng = traces_of(hr, S())
-        ok = all(
-            (lambda hooks, sets: not hooks or (sets and sets[0][0] < hooks[0] and sets[0][1] == sym("msg")))(
-                [i for i, e in enumerate(t) if e[0] == "hook"], [(i, e[1]) for i, e in enumerate(t) if e[0] == "set_request"]
-            )
-            for t, how, st in traces
-        )
-    ctx.check(ok, "R27.1", (LAYER, "DNSLayer.handle_request", hr), "flow.request = msg precedes the first hook",
-              "a hook can fire for a flow whose request is not (yet) the query that created it", desc="handle_request: flow.request = msg before any hook")
-
-
-def dataclass_fields(model, rel, cls):
-    out = []
-    for st in model.cls(rel, cls).body:
-        if isinstance(st, ast.AnnAssign) and isinstance(st.target, ast.Name) and "ClassVar" not in ast.unparse(st.annotation):
-            out.append(st.target.id)
-    return out
-
-
-def check_r272(ctx):
-    m = ctx.model
-    fail = ctx.func(DNS, "DNSMessage.fail")
-    fields = dataclass_fields(m, DNS, "DNSMessage")
-    ctx.require(fields[:3] == ["id", "query", "op_code"] and "questions" in fields and "recursion_desired" in fields, f"DNSMessage fields changed: {fields}")
-    traces, eng = traces_of(fail, SymSpec())
-    rets = [st.get("$ret") for t, how, st in traces if how == "return"]
-    ctx.require(len(rets) >= 1, "DNSMessage.fail never returns")
-    params = [a.arg for a in fail.args.args]
-    ctx.require(params == ["self", "response_code"], f"DNSMessage.fail signature changed: {params}")
-    want = {
-        "id": sym("self.id"),
-        "query": C(False),
-        "op_code": sym("self.op_code"),
-        "recursion_desired": sym("self.recursion_desired"),
-        "questions": sym("self.questions"),
-        "response_code": sym("response_code"),
-    }
-    for r in rets:
-        if not (isinstance(r, tuple) and r[0] == "call" and last_attr_name(r) in ("DNSMessage", "cls", "type(self)")):
-            raise AnalysisError(f"DNSMessage.fail returns something that is not a DNSMessage(...) construction: {show(r)}")
-        args = call_args(r, fields)
-        if args is None:
-            # keywords only, possibly not all fields: map what is there
-            args_map = {a[1]: a[2] for a in r[2] if isinstance(a, tuple) and a and a[0] == "kw"}
-            pos = [a for a in r[2] if not (isinstance(a, tuple) and a and a[0] == "kw")]
-            for f, v in zip(fields, pos):
-                args_map[f] = v
-        else:
-            args_map = dict(zip(fields, args))
-        for f, w in want.items():
-            got = args_map.get(f)
-            ctx.check(got == w, "R27.2", (DNS, "DNSMessage.fail", fail), f"fail(): {f} = {show(w)}",
-                      f"the synthesised failure reply has {f}={show(got) if got is not None else 'missing'}; the client's resolver matches replies on id/question and expects opcode/RD echoed, QR=1",
-                      desc=f"fail(): {f} <- {show(w)}")
-    # NOERROR is refused
-    codes = int_constants(m, RC)
-    ctx.require("SERVFAIL" in codes and "NOERROR" in codes and codes["SERVFAIL"] != codes["NOERROR"], "response_codes.SERVFAIL / NOERROR changed")
-    he = ctx.func(LAYER, "DNSLayer.handle_error")
-    traces, eng = traces_of(he, SendSpec())
-    n = 0
-    for trace, how, st in traces:
-        sends = [(i, e) for i, e in enumerate(trace) if e[0] == "send"]
-        ctx.require(how == "return" and len(sends) == 1, f"handle_error: expected exactly one SendData per path, got {len(sends)} ({how})")
-        i, e = sends[0]
-        n += 1
-        pay = e[2]
-        a = call_args(pay)
-        if a is None or last_attr_name(pay) != "pack_message" or not a:
-            raise AnalysisError(f"handle_error payload is not pack_message(..): {show(pay)}")
-        x = a[0]
-        xa = call_args(x)
-        ok = (
-            e[1] == sym("self.context.client")
-            and isinstance(x, tuple) and x[0] == "call" and x[1] == "flow.request.fail" and xa == [sym("response_codes.SERVFAIL")]
-            and any(t == ("hook", "DnsErrorHook") for t in trace[:i])
-        )
-        ctx.check(ok, "R27.2", (LAYER, "DNSLayer.handle_error", he), "SendData(client, pack_message(flow.request.fail(SERVFAIL)))",
-                  f"on an upstream failure the layer sends {show(x)} to {show(e[1])}: the client must receive a SERVFAIL built from its own query, after the error hook",
-                  desc="handle_error: SERVFAIL from flow.request to the client after DnsErrorHook")
-    ctx.require(n >= 1, "handle_error sends nothing")
+MSG_FIELDS = ("id", "query", "op_code", "recursion_desired", "response_code", "questions")
 
 
 # ---------------------------------------------------------------------------------------------------
-# R27.3 finite evaluation of unpack_message
+# the interpreted world
 
 
-def compositions(n, limit=None):
+class _Clock:
+    now = 1000.0
+
+    @staticmethod
+    def time():
+        _Clock.now += 1.0
+        return _Clock.now
+
+
+class _Uuid:
+    n = 0
+
+    @staticmethod
+    def uuid4():
+        _Uuid.n += 1
+        return f"00000000-0000-4000-8000-{_Uuid.n:012d}"
+
+
+def toy_wire(id, response=False, op_code=0, rd=False, rcode=0, qname=b""):
+    """the toy codec's wire form: id(2) | QR(1 bit) opcode(4 bits) RD(1 bit) | rcode(1) | question name"""
+    return bytes([id >> 8 & 255, id & 255, (0x80 if response else 0) | (op_code & 15) << 3 | (4 if rd else 0), rcode & 255]) + qname
+
+
+def toy_decode(data: bytes):
+    d = bytes(data) + b"\0\0\0\0"
+    return {"id": d[0] << 8 | d[1], "query": not d[2] & 0x80, "op_code": d[2] >> 3 & 15, "recursion_desired": bool(d[2] & 4), "response_code": d[3], "qname": bytes(data[4:])}
+
+
+MALFORMED = b"\xff\xff\xff\xff"  # a payload the toy codec rejects (struct.error, like the real one does for garbage); never produced by toy_wire
+
+
+class _DNSInterp(LayerInterp):
+    """LayerInterp + the codec abstraction, keyed on the *resolved* class (not on how the layer spells the call)"""
+
+    world = None
+
+    def getattr(self, base, attr, node, depth):
+        if isinstance(base, ClassRef) and base._key() == (DNS, "DNSMessage"):
+            if attr == "unpack":
+                return self.world.codec_unpack
+            if attr == "unpack_from":
+                raise AnalysisError("DNS harness: the layer decodes messages through DNSMessage.unpack_from (only DNSMessage.unpack is abstracted)")
+        if isinstance(base, Rec) and base._impl == (DNS, "DNSMessage") and attr in ("packed", "content") and attr not in base.__dict__:
+            return self.world.codec_pack(base)
+        return super().getattr(base, attr, node, depth)
+
+    def stmt(self, st, env, mod, depth):
+        # `buf += data` on a bytearray / list mutates the object in place (every alias sees it); pyint rebinds the target to a new object
+        if isinstance(st, ast.AugAssign) and isinstance(st.op, ast.Add):
+            cur = self.ev(st.target, env, mod, depth)
+            if isinstance(cur, (bytearray, list)):
+                self.tick()
+                rhs = self.ev(st.value, env, mod, depth)
+                if isinstance(rhs, GenDone):
+                    rhs = list(rhs.yields)
+                try:
+                    cur += rhs
+                except TypeError:
+                    raise Raised("TypeError")
+                self.assign(st.target, cur, env, mod, depth)
+                return
+        return super().stmt(st, env, mod, depth)
+
+    def native_call(self, f, args, kwargs, where):
+        # a helper generator that yields *data* (frames, messages) has been run eagerly: list(g) / sorted(g) / enumerate(g) see its values
+        if any(isinstance(a, GenDone) for a in args):
+            args = [list(a.yields) if isinstance(a, GenDone) else a for a in args]
+        return super().native_call(f, args, kwargs, where)
+
+
+MODEL_LIMIT_EXCEPTIONS = ("TypeError", "AttributeError", "NameError", "UnboundLocalError", "NotImplementedError", "RecursionError")
+
+
+class Step:
+    """what the layer did for one event"""
+
+    __slots__ = ("event", "trace", "exc", "decoded")
+
+    def __init__(self, event):
+        self.event = event
+        self.trace = []  # ('hook', Cls, flow, request, response, error) | ('send', conn, bytes) | ('close', conn) | ('open', conn) | ('other', text)
+        self.exc = None
+        self.decoded = []  # (bytes handed to the codec, message record | None if rejected)
+
+    def hooks(self, cls=None):
+        return [e for e in self.trace if e[0] == "hook" and (cls is None or e[1] == cls)]
+
+    def sends(self, conn=None):
+        return [e for e in self.trace if e[0] == "send" and (conn is None or e[1] == conn)]
+
+    def visible(self):
+        return [e for e in self.trace if e[0] != "open"]
+
+    def show(self):
+        out = []
+        for e in self.trace:
+            if e[0] == "hook":
+                out.append(f"{e[1]}(request={_show_msg(e[3])}, response={_show_msg(e[4])})")
+            elif e[0] == "send":
+                out.append(f"SendData({e[1]}, {_short(e[2])})")
+            else:
+                out.append(f"{e[0]}({', '.join(str(x) for x in e[1:])})")
+        if self.exc:
+            out.append(f"raises {self.exc}")
+        return "[" + ", ".join(out) + "]"
+
+
+def _short(b):
+    return repr(b) if not isinstance(b, (bytes, bytearray)) or len(b) <= 24 else f"<{len(b)} bytes>"
+
+
+def _show_msg(m):
+    if not isinstance(m, Rec):
+        return repr(m)
+    d = m.__dict__
+    return f"<{'query' if d.get('query') else 'reply'} id={d.get('id')}>"
+
+
+class DNSWorld:
+    def __init__(self, ctx):
+        m = ctx.model
+        ctx.require(m.has(LAYER, "DNSLayer"), f"anchor vanished: {LAYER}::DNSLayer")
+        ctx.require(m.has(DNS, "DNSMessage") and m.has(DNS, "DNSFlow"), f"anchor vanished: {DNS}::DNSMessage / DNSFlow")
+        for ev in ("Start", "DataReceived", "ConnectionClosed"):
+            ctx.require(m.has(EVENTS, ev), f"anchor vanished: {EVENTS}::{ev}")
+        self.model = CachedModel(m)
+        self.it = _DNSInterp(self.model, respond=self._respond, trusted_modules={"time": _Clock, "uuid": _Uuid}, max_steps=4_000_000)
+        self.it.world = self
+        self.evmod = self.model.module(EVENTS)
+        self.steps = 0
+        self.events = 0
+        self.runs = 0
+        self.addon = None  # callable(hook class name, flow record): what the addons do in a hook
+        self.open_err = None  # outcome of OpenConnection
+        self.step = None
+        self.sender = None
+        self.from_client = []  # message records decoded from client data (identity)
+
+    # ---- codec abstraction
+    def codec_unpack(self, buffer, timestamp=None):
+        if isinstance(buffer, (Rec,)) or not isinstance(buffer, (bytes, bytearray, memoryview)):
+            raise AnalysisError(f"DNS harness: DNSMessage.unpack called with {type(buffer).__name__}")
+        data = bytes(buffer)
+        if data[:4] == MALFORMED:
+            if self.step is not None:
+                self.step.decoded.append((data, None))
+            raise Raised("error", "toy codec: malformed message")
+        f = toy_decode(data)
+        qs = [Rec("Question", _impl=(DNS, "Question"), name=f["qname"].decode("latin-1"), type=1, class_=1)] if f["qname"] else []
+        msg = Rec("DNSMessage", _impl=(DNS, "DNSMessage"), id=f["id"], query=f["query"], op_code=f["op_code"], authoritative_answer=False, truncation=False,
+                  recursion_desired=f["recursion_desired"], recursion_available=False, reserved=0, response_code=f["response_code"], questions=qs,
+                  answers=[], authorities=[], additionals=[], timestamp=timestamp)
+        if self.step is not None:
+            self.step.decoded.append((data, msg))
+        if self.sender == "client":
+            self.from_client.append(msg)
+        return msg
+
+    codec_unpack._abstract_ok = True
+
+    def codec_pack(self, msg: Rec) -> bytes:
+        d = msg.__dict__
+        missing = [f for f in MSG_FIELDS if f not in d]
+        if missing:
+            raise AnalysisError(f"DNS harness: a DNSMessage record without {missing} is serialised")
+        qs = d["questions"]
+        if not isinstance(d["id"], int) or not isinstance(d["op_code"], int) or not isinstance(d["response_code"], int) or not isinstance(qs, (list, tuple)):
+            raise AnalysisError(f"DNS harness: DNSMessage fields outside the toy codec's domain: id={d['id']!r} op_code={d['op_code']!r} rcode={d['response_code']!r}")
+        names = []
+        for q in qs:
+            n = q.__dict__.get("name") if isinstance(q, Rec) else None
+            if not isinstance(n, str):
+                raise AnalysisError("DNS harness: question without a name is serialised")
+            names.append(n.encode("latin-1"))
+        return toy_wire(d["id"], not d["query"], d["op_code"], bool(d["recursion_desired"]), d["response_code"], b"|".join(names))
+
+    # ---- environment: answers every command
+    @staticmethod
+    def _conn(v):
+        return v._name if isinstance(v, Rec) else repr(v)
+
+    def _respond(self, cmd):
+        tr = self.step.trace if self.step is not None else []
+        if not isinstance(cmd, Rec) or not cmd.isa("Command"):
+            return None  # a value yielded by a helper generator to its caller inside the layer (frames, messages): not a command
+        d = cmd.__dict__
+        if cmd.isa("SendData"):
+            data = d.get("data")
+            tr.append(("send", self._conn(d.get("connection")), bytes(data) if isinstance(data, (bytes, bytearray)) else data))
+        elif cmd.isa("CloseConnection"):
+            c = d.get("connection")
+            tr.append(("close", self._conn(c)))
+            if isinstance(c, Rec):
+                object.__setattr__(c, "connected", False)
+        elif cmd.isa("OpenConnection"):
+            c = d.get("connection")
+            tr.append(("open", self._conn(c)))
+            if self.open_err is not None:
+                return self.open_err
+            if isinstance(c, Rec):
+                object.__setattr__(c, "connected", True)
+        elif cmd.isa("Log"):
+            pass
+        elif cmd.isa("StartHook") or cmd._cls.endswith("Hook"):
+            flow = d.get("flow")
+            if not isinstance(flow, Rec):
+                flow = next((v for v in d.values() if isinstance(v, Rec)), None)
+            fd = flow.__dict__ if isinstance(flow, Rec) else {}
+            tr.append(("hook", cmd._cls, flow, fd.get("request"), fd.get("response"), fd.get("error")))
+            if self.addon is not None and isinstance(flow, Rec):
+                self.addon(cmd._cls, flow)
+        else:
+            tr.append(("other", cmd._cls))
+        return None
+
+    # ---- driving the layer
+    def _mk_event(self, cls, *args):
+        return self.it.instantiate(ClassRef(self.evmod, self.model.cls(EVENTS, cls)), list(args), {}, 0, cls)
+
+    def new(self, proto: str, address=("upstream.example", 53), connected=True):
+        self.runs += 1
+        self.steps += self.it.steps
+        self.it.steps = 0
+        self.it.writes = []
+        self.it.log = []
+        self.addon = None
+        self.open_err = None
+        self.from_client = []
+        self.proto = proto
+        self.client = OpenRec("Client", _bases=("Connection",), _name="client", transport_protocol=proto, connected=True, address=None)
+        self.server = OpenRec("Server", _bases=("Connection",), _name="server", transport_protocol=proto, connected=bool(connected and address), address=address)
+        self.context = OpenRec("Context", _name="context", client=self.client, server=self.server, layers=[])
+        self.layer = self.it.instantiate(ClassRef(self.model.module(LAYER), self.model.cls(LAYER, "DNSLayer")), [self.context], {}, 0, "DNSLayer")
+        if not isinstance(self.layer, Rec) or self.layer.__dict__.get("context") is not self.context:
+            raise AnalysisError("DNS harness: constructing DNSLayer(context) does not give a layer bound to the context")
+        st = self._deliver("Start", None)
+        if st.exc or st.visible():
+            raise AnalysisError(f"DNS harness: events.Start is not handled silently: {st.show()}")
+        return self
+
+    def _deliver(self, kind, sender, *args):
+        self.step = Step((kind, sender) + tuple(args))
+        self.sender = sender
+        self.events += 1
+        conn = {"client": self.client, "server": self.server, None: None}[sender]
+        ev = self._mk_event(kind, *(([conn] if conn is not None else []) + list(args)))
+        self.it.log = []
+        self.it.writes = []
+        try:
+            h = self.it.getattr(self.layer, "_handle_event", None, 0)
+            self.it.apply(h, [ev], {}, 0)
+        except Raised as e:
+            if e.name in MODEL_LIMIT_EXCEPTIONS:
+                # could be a defect, could be a construct the interpreter does not model exactly: never a verdict
+                raise AnalysisError(f"DNS harness: handling {kind} from the {sender} raises {e.name} ({e.msg}) in the interpreted layer after {self.step.show()}")
+            self.step.exc = e.name
+        st, self.step, self.sender = self.step, None, None
+        return st
+
+    def data(self, sender, data: bytes) -> Step:
+        return self._deliver("DataReceived", sender, bytes(data))
+
+    def closed(self, sender) -> Step:
+        return self._deliver("ConnectionClosed", sender)
+
+    def wire(self, payload: bytes) -> bytes:
+        """one message as it travels on this world's transport"""
+        return frames([payload]) if self.proto == "tcp" else payload
+
+    def unwire(self, data):
+        """-> the message bytes a peer reads from one SendData, or None if it cannot be read as exactly one message"""
+        if not isinstance(data, (bytes, bytearray)):
+            return None
+        if self.proto != "tcp":
+            return bytes(data)
+        if len(data) < 2 or int.from_bytes(data[:2], "big") != len(data) - 2:
+            return None
+        return bytes(data[2:])
+
+    def total_steps(self):
+        return self.steps + self.it.steps
+
+
+def frames(payloads):
+    return b"".join(len(p).to_bytes(2, "big") + p for p in payloads)
+
+
+def compositions(n):
     """all ways to cut a stream of n bytes into consecutive non-empty segments (as tuples of lengths)"""
     for mask in range(1 << (n - 1)):
         cuts, last = [], 0
@@ -265,220 +383,438 @@ def compositions(n, limit=None):
         yield tuple(cuts)
 
 
-class FramingHarness:
-    def __init__(self, ctx):
-        m = ctx.model
-        self.ctx = ctx
-        self.fn = ctx.func(LAYER, "DNSLayer.unpack_message")
-        params = [a.arg for a in self.fn.args.args]
-        ctx.require(params == ["self", "data", "from_client"], f"unpack_message signature changed: {params}")
-        label = m.const(LAYER, "_LENGTH_LABEL")
-        ctx.require(isinstance(label, ast.Call) and attr_chain(label.func) == "struct.Struct" and len(label.args) == 1 and isinstance(label.args[0], ast.Constant),
-                    "_LENGTH_LABEL is no struct.Struct(<literal>)")
-        try:
-            self.label = pystruct.Struct(label.args[0].value)
-        except pystruct.error:
-            raise AnalysisError(f"_LENGTH_LABEL format {label.args[0].value!r} is not a struct format")
-        init = ctx.func(LAYER, "DNSLayer.__init__")
-        self.buffers = []
-        for st in init.body:
-            if isinstance(st, ast.Assign) and isinstance(st.value, ast.Call) and attr_chain(st.value.func) == "bytearray" and not st.value.args:
-                self.buffers += [attr_chain(t)[5:] for t in st.targets if attr_chain(t).startswith("self.")]
-        ctx.require(len(self.buffers) >= 2, f"DNSLayer.__init__ creates {self.buffers} as bytearray buffers; expected one per direction")
-        self.steps = 0
+class Verdicts:
+    """first counterexample per obligation; an obligation that was evaluated and never failed is an instance"""
 
-    def fresh(self, proto):
-        return {"attrs": {b: bytearray() for b in self.buffers}, "proto": proto}
+    def __init__(self, ctx, rule, where):
+        self.ctx, self.rule, self.where = ctx, rule, where
+        self.bad = {}
+        self.seen = {}
+        ctx.__dict__.setdefault("_open_verdicts", []).append(self)
 
-    def feed(self, layer, data: bytes, from_client: bool):
-        """-> ('ok', [messages]) | ('raise', ExcName)"""
-        label = self.label
+    def expect(self, cond, construct, reason, desc=None):
+        self.seen.setdefault(construct, desc or construct)
+        if not cond and construct not in self.bad:
+            self.bad[construct] = reason() if callable(reason) else reason
+        return bool(cond)
 
-        def resolve(name):
-            if name in ("self.context.client.transport_protocol", "self.context.server.transport_protocol"):
-                return layer["proto"]
-            if name == "_LENGTH_LABEL.size":
-                return label.size
-            raise KeyError(name)
-
-        funcs = {
-            "_LENGTH_LABEL.unpack_from": lambda buf, off=0: self._unpack(buf, off),
-            "dns.DNSMessage.unpack": lambda data, timestamp=None: bytes(data),
-            "time.time": lambda: 0.0,
-            "struct.error": lambda *a: "struct.error",
-        }
-        ev = Concrete(resolve, layer["attrs"], funcs, max_steps=50000)
-        try:
-            out = ev.call(self.fn, bytes(data), from_client)
-        except Raised as r:
-            self.steps += ev.steps
-            return ("raise", r.name)
-        self.steps += ev.steps
-        if not isinstance(out, list):
-            raise AnalysisError(f"unpack_message returned {type(out).__name__}, expected a list")
-        return ("ok", out)
-
-    def _unpack(self, buf, off):
-        try:
-            return self.label.unpack_from(bytes(buf), off)
-        except pystruct.error:
-            raise Raised("error")
+    def flush(self, suffix="", only_failures=False):
+        if self in self.ctx._open_verdicts:
+            self.ctx._open_verdicts.remove(self)
+        for construct, desc in self.seen.items():
+            if construct in self.bad:
+                self.ctx.fail(self.rule, self.where, construct, self.bad[construct])
+            elif not only_failures:
+                self.ctx.ok(self.rule, desc + suffix)
 
 
-def frames(payloads):
-    return b"".join(len(p).to_bytes(2, "big") + p for p in payloads)
+def _where(ctx, rel, qual):
+    node = ctx.model.cls(rel, qual) if "." not in qual else ctx.model.func(rel, qual)
+    return (rel, qual, node)
 
 
-def check_r273(ctx):
-    h = FramingHarness(ctx)
-    where = (LAYER, "DNSLayer.unpack_message", h.fn)
+def _note_functions(ctx):
+    for rel, q in ((LAYER, "DNSLayer.__init__"), (LAYER, "DNSLayer.state_query"), (LAYER, "DNSLayer.state_done"), (LAYER, "DNSLayer.handle_request"),
+                   (LAYER, "DNSLayer.handle_response"), (LAYER, "DNSLayer.handle_error"), (LAYER, "DNSLayer.unpack_message"), (LAYER, "pack_message"), (DNS, "DNSMessage.fail")):
+        if ctx.model.has(rel, q):
+            ctx.func(rel, q)
+    cls = ctx.model.cls(LAYER, "DNSLayer")
+    for st in cls.body:
+        if isinstance(st, ast.FunctionDef):
+            ctx.functions.add(f"{LAYER}::DNSLayer.{st.name}")
+
+
+# ---------------------------------------------------------------------------------------------------
+# R27.1 bounded model check against the reference model
+
+# name -> (message id, opcode, RD, question); A and A2 are two *different questions under the same id* (ids are 16 bit and get re-used)
+IDS = {"A": (0x0005, 0, True, b"a.example"), "A2": (0x0005, 0, True, b"a2.example"), "B": (0x1234, 2, False, b"b.example"), "C": (0x0909, 0, True, b"c.example")}
+# Q = client query, E = client query that an addon fails (flow.error set in the request hook => SERVFAIL), R = upstream reply with that id
+# (a well-behaved upstream: it carries the question of the most recent query with the id)
+CORE = (("Q", "A"), ("Q", "B"), ("R", "A"), ("R", "B"), ("R", "C"))
+ALPHABET = CORE + (("Q", "A2"), ("E", "A"))
+# id re-use after a completed exchange (answered / failed), unanswered re-sends, replies arriving late - longer than the exhaustive bound
+TARGETED = (
+    "QA RA QA2 RA", "QA RA QA RA", "EA QA2 RA", "EA QA RA", "EA EA QA2 RA", "QA QA2 RA", "QA QA RA QA2 RA", "QA RA RA QA2 RA",
+    "QA RA QA2 QB RB RA", "QB QA RA RB QA2 RB RA", "QA RA QA2 RA QA RA", "QA RA EA QA2 RA", "QA2 RA QA RC RA",
+)
+
+
+def _parse(text):
+    return tuple((t[0], t[1:]) for t in text.split())
+
+
+def _seq_text(seq, proto):
+    kinds = {"Q": "client query", "E": "client query (failed by an addon)", "R": "upstream reply"}
+    return proto.upper() + ": " + " ; ".join(f"{kinds[k]} id={IDS[w][0]:#06x}" + (f" {IDS[w][3].decode()}" if k != "R" else "") for k, w in seq)
+
+
+def _fail_in_request_hook(hook, flow):
+    if hook == "DnsRequestHook":
+        object.__setattr__(flow, "error", Rec("Error", _name="error", msg="addon says no", timestamp=0.0))
+
+
+def run_sequence(w: DNSWorld, proto, seq, v: Verdicts):
+    w.new(proto)
+    latest = {}  # message id -> (question, record) of the client's most recent query with that id
+    status = {}  # message id -> 'outstanding' | 'completed' (answered or failed)
+    for n, (kind, who) in enumerate(seq):
+        id, op, rd, q = IDS[who]
+        if kind == "R":
+            q = latest[id][0] if id in latest else q
+            wire = toy_wire(id, True, op, rd, 0, q)
+        else:
+            wire = toy_wire(id, False, op, rd, 0, q)
+        w.addon = _fail_in_request_hook if kind == "E" else None
+        st = w.data("server" if kind == "R" else "client", w.wire(wire))
+        w.addon = None
+        at = lambda: f"{_seq_text(seq[:n + 1], proto)}: the last event makes the layer do {st.show()}"  # noqa: E731
+        if not v.expect(st.exc is None and not [e for e in st.trace if e[0] == "close"], "ordinary queries and replies neither raise nor close a connection",
+                        lambda: at() + "; well-formed traffic must be processed"):
+            return
+        msgs = [m for _, m in st.decoded]
+        if not v.expect(len(msgs) == 1 and msgs[0] is not None, "one message per datagram / frame reaches the codec",
+                        lambda: at() + f"; {len(msgs)} messages were decoded from one complete message"):
+            return
+        msg = msgs[0]
+        hooks = st.hooks()
+        before = status.get(id)
+        if kind != "R":
+            latest[id] = (q, msg)
+        # no hook for a flow that does not carry the client's query
+        v.expect(all(any(h[3] is m for m in w.from_client) for h in hooks), "every hook's flow.request is a query received from the client",
+                 lambda: at() + ": a flow without the client's query is shown to addons (request-less flow / reply taken for a query)")
+        # nothing reaches the client that does not answer its most recent query with that id
+        for s in st.sends("client"):
+            body = w.unwire(s[2])
+            f = toy_decode(body) if body is not None else None
+            v.expect(f is not None and not f["query"] and f["id"] in latest and latest[f["id"]][0] == f["qname"],
+                     "every message sent to the client answers its most recent query with that id (id, question, QR=1)",
+                     lambda: at() + f": the client receives {_short(s[2])}; its most recent queries are { {hex(i): x[0] for i, x in latest.items()} } - "
+                     "an answer that belongs to an earlier exchange (or to nobody) is delivered for a different question")
+        if kind != "R":
+            req = st.hooks("DnsRequestHook")
+            v.expect(len(req) == 1 and req[0][3] is msg and hooks[0] is req[0], "client query: exactly one DnsRequestHook, first hook of the event, flow.request is that query when it fires",
+                     lambda: at() + ": the query must be stored in flow.request before the (single) request hook, which precedes every other hook")
+            if before == "completed" and len(req) == 1:
+                # the id belongs to an exchange that is over: this is a query of its own (F-C27b, repaired)
+                v.expect(req[0][4] is None and req[0][5] is None, "query re-using the id of a completed exchange: shown to addons as a query of its own (no response / error yet)",
+                         lambda: at() + ": the flow of the request hook still carries the previous exchange's response / error, which is then sent for the new question")
+            if kind == "Q":
+                asked_up = [toy_decode(b) for b in (w.unwire(s[2]) for s in st.sends("server")) if b is not None]
+                fresh = before != "outstanding"
+                v.expect(len(hooks) == 1 and not st.sends("client") and (not fresh or [(f["id"], f["query"], f["qname"]) for f in asked_up] == [(id, True, q)]),
+                         "client query (first use of the id, or re-use after a completed exchange): only the request hook, asked upstream, nothing sent to the client yet",
+                         lambda: at() + ": the query must be asked upstream; nothing can answer it yet")
+                status[id] = "outstanding"
+            else:
+                errs = st.hooks("DnsErrorHook")
+                sends = st.sends("client")
+                v.expect(len(errs) == 1 and errs[0][3] is msg and len(hooks) == 2 and len(sends) == 1, "client query failed by an addon: request hook, error hook for that query, one reply to the client",
+                         lambda: at() + ": expected DnsRequestHook, DnsErrorHook and one SERVFAIL for this query")
+                status[id] = "completed"
+        elif before == "completed" and not hooks and not st.sends():
+            # a further reply for an exchange that is over: dropping it is as good as delivering it again
+            v.expect(True, "duplicate reply for an answered query: delivered to the query's flow or dropped", "")
+        elif before is not None:
+            resp = st.hooks("DnsResponseHook")
+            want = latest[id][1]
+            ok = len(resp) == 1 and len(hooks) == 1 and resp[0][4] is msg and (resp[0][3] is want if before == "outstanding" else any(resp[0][3] is m for m in w.from_client) and resp[0][3].__dict__.get("id") == id)
+            v.expect(ok, "reply with a requested id: exactly one DnsResponseHook for the flow of the client's query with that id",
+                     lambda: at() + f": expected one DnsResponseHook with flow.request = the client's most recent query id={id:#06x} and flow.response = this reply")
+            sends = st.sends("client")
+            body = w.unwire(sends[0][2]) if len(sends) == 1 else None
+            f = toy_decode(body) if body is not None else None
+            v.expect(f is not None and f["id"] == id and not f["query"] and f["qname"] == q, "reply with a requested id: exactly one response with that id and question goes to the client",
+                     lambda: at() + ": the client must receive exactly this reply")
+            status[id] = "completed"
+        else:
+            v.expect(not hooks and not st.sends(), "reply with an id nobody asked for: no hook, nothing sent",
+                     lambda: at() + ": an unsolicited upstream message must be dropped (no flow, no hook, no bytes)")
+
+
+def check_r271(ctx, w: DNSWorld):
     thorough = ctx.tier == "thorough"
-    streams = [
-        ([b"abc", b"z"], b""),               # two complete frames
-        ([b"q"], b"\x00\x05he"),             # complete frame + incomplete frame (tail stays buffered)
-        ([b"xy"], b"\x00"),                  # half a length prefix stays buffered
-    ]
+    v = Verdicts(ctx, "R27.1", _where(ctx, LAYER, "DNSLayer"))
+    # (transport, alphabet, maximal length)
+    plan = [("udp", ALPHABET, 3), ("udp", ALPHABET[:-1], 4), ("tcp", ALPHABET, 3)] if thorough else [("udp", ALPHABET, 2), ("udp", CORE, 3), ("tcp", CORE, 2)]
+    seen = set()
+    for proto, alphabet, depth in plan:
+        for ln in range(1, depth + 1):
+            for seq in itertools.product(alphabet, repeat=ln):
+                if not thorough and ln == depth == 3 and seq[0][0] == "R":
+                    continue  # quick tier: a reply into the fresh layer is followed by every event at length 2 already
+                if (proto, seq) not in seen:
+                    seen.add((proto, seq))
+                    run_sequence(w, proto, seq, v)
+    for proto in ("udp", "tcp"):
+        for text in TARGETED if thorough or proto == "udp" else TARGETED[:3]:
+            if (proto, _parse(text)) not in seen:
+                seen.add((proto, _parse(text)))
+                run_sequence(w, proto, _parse(text), v)
+    n = len(seen)
+    ctx.paths += n
+    ctx.bounds.append("R27.1: all event sequences " + ", ".join(f"over {len(a)} events up to length {d} ({p.upper()})" for p, a, d in plan) + ("" if thorough else " (length 3: starting with a query)") + f" + {len(TARGETED)} longer id re-use sequences (UDP, TCP): {n} runs")
+    v.flush()
+    return n
+
+
+# ---------------------------------------------------------------------------------------------------
+# R27.2 synthesised failure replies
+
+FAIL_WANT = {"id": "self.id", "query": "False", "op_code": "self.op_code", "recursion_desired": "self.recursion_desired", "questions": "self.questions", "response_code": "response_code"}
+
+
+def check_fail(ctx, w: DNSWorld, codes):
+    fail = ctx.func(DNS, "DNSMessage.fail")
+    where = (DNS, "DNSMessage.fail", fail)
+    v = Verdicts(ctx, "R27.2", where)
+    rcodes = sorted({codes["SERVFAIL"]} | {codes[k] for k in ("NXDOMAIN", "REFUSED", "FORMERR") if k in codes and codes[k] != codes["NOERROR"]})
+    it = w.it
+    n = 0
+
+    def names(qs):
+        return [q.__dict__.get("name") if isinstance(q, Rec) else q for q in qs] if isinstance(qs, (list, tuple)) else qs
+
+    for id, op, rd, nq in itertools.product((0, 5, 0xFFFF), (0, 2, 5), (True, False), (1, 0, 2)):
+        for rc in rcodes:
+            w.sender = None
+            src = w.codec_unpack(toy_wire(id, False, op, rd, 0, b"q.example" if nq else b""))
+            if nq == 2:
+                src.__dict__["questions"].append(Rec("Question", _impl=(DNS, "Question"), name="second.example", type=28, class_=1))
+            before = {k: (list(x) if isinstance(x, list) else x) for k, x in src.__dict__.items() if not k.startswith("_")}
+            try:
+                r = it.method(src, "fail", rc)
+            except Raised as e:
+                v.expect(False, "fail(): returns a reply for every error code", f"query id={id} op_code={op} rd={rd}: fail({rc}) raises {e.name}")
+                continue
+            n += 1
+            ctx.cells += 1
+            if not (isinstance(r, Rec) and r.isa("DNSMessage")):
+                raise AnalysisError(f"DNSMessage.fail returns {r!r}, not a DNSMessage record")
+            d = r.__dict__
+            got = {"id": d.get("id"), "query": d.get("query"), "op_code": d.get("op_code"), "recursion_desired": d.get("recursion_desired"),
+                   "questions": names(d.get("questions")), "response_code": d.get("response_code")}
+            want = {"id": id, "query": False, "op_code": op, "recursion_desired": rd, "questions": names(before["questions"]), "response_code": rc}
+            for f, text in FAIL_WANT.items():
+                same = got[f] == want[f] and type(got[f]) is type(want[f])
+                v.expect(same, f"fail(): {f} = {text}",
+                         f"the failure reply synthesised for the query (id={id}, op_code={op}, recursion_desired={rd}, questions={want['questions']}) with code {rc} has {f}={got[f]!r}; "
+                         "the client's resolver matches replies on id/question and expects opcode/RD echoed, QR=1", desc=f"fail(): {f} <- {text}")
+            v.expect(names(src.__dict__.get("questions")) == names(before["questions"]) and src.__dict__.get("id") == id, "fail(): the query itself is left unchanged",
+                     f"fail({rc}) modifies the query it answers: {before} -> {dict((k, x) for k, x in src.__dict__.items() if not k.startswith('_'))}")
+    ctx.require(n >= 1, "DNSMessage.fail never returns")
+    v.flush(f" ({n} evaluations)")
+
+
+ERROR_SOURCES = ("no upstream address", "addon sets flow.error", "OpenConnection fails")
+
+
+def check_errors(ctx, w: DNSWorld, codes):
+    v = Verdicts(ctx, "R27.2", _where(ctx, LAYER, "DNSLayer"))
+    queries = ((0xBEEF, 2, True, b"x.example"), (7, 0, False, b"y.example"), (0, 5, True, b"z.example"))
+    n = 0
+    for proto, source, (id, op, rd, q) in itertools.product(("udp", "tcp"), ERROR_SOURCES, queries):
+        if source == "no upstream address":
+            w.new(proto, address=None)
+        elif source == "OpenConnection fails":
+            w.new(proto, connected=False)
+            w.open_err = "connection refused"
+        else:
+            w.new(proto)
+
+            def addon(hook, flow):
+                if hook == "DnsRequestHook":
+                    object.__setattr__(flow, "error", Rec("Error", _name="error", msg="addon says no", timestamp=0.0))
+
+            w.addon = addon
+        st = w.data("client", w.wire(toy_wire(id, False, op, rd, 0, q)))
+        n += 1
+        ctx.cells += 1
+        at = lambda: f"{proto.upper()}, {source}: client query id={id:#06x} op_code={op} rd={rd} question={q!r} makes the layer do {st.show()}"  # noqa: E731
+        if not v.expect(st.exc is None, "an upstream failure is answered, not raised", lambda: at()):
+            continue
+        idx = [i for i, e in enumerate(st.trace) if e[0] == "hook" and e[1] == "DnsErrorHook"]
+        sends = [(i, e) for i, e in enumerate(st.trace) if e[0] == "send" and e[1] == "client"]
+        msg = st.decoded[0][1] if len(st.decoded) == 1 else None
+        v.expect(len(idx) == 1 and msg is not None and st.trace[idx[0]][3] is msg, "upstream failure: one DnsErrorHook for the flow of the client's query",
+                 lambda: at() + ": the error must be reported once, on the flow that carries the query")
+        body = w.unwire(sends[0][1][2]) if len(sends) == 1 else None
+        f = toy_decode(body) if body is not None else None
+        ok = f is not None and idx and sends[0][0] > idx[0] and not f["query"] and f["response_code"] == codes["SERVFAIL"] and (f["id"], f["op_code"], f["recursion_desired"], f["qname"]) == (id, op, rd, q)
+        v.expect(ok, "SendData(client, pack_message(flow.request.fail(SERVFAIL)))",
+                 lambda: at() + f": after the error hook the *client* must receive exactly one SERVFAIL (rcode {codes['SERVFAIL']}) built from its own query "
+                 f"(id, opcode, RD, question echoed, QR=1); it gets {toy_decode(body) if body is not None else [_short(s[1][2]) for s in sends]}",
+                 desc="upstream failure: SERVFAIL from flow.request to the client after DnsErrorHook")
+    v.flush(f" ({n} scenarios: {len(ERROR_SOURCES)} error sources x 3 queries x UDP/TCP)")
+
+
+def check_r272(ctx, w: DNSWorld):
+    codes = int_constants(ctx.model, RC)
+    ctx.require("SERVFAIL" in codes and "NOERROR" in codes and codes["SERVFAIL"] != codes["NOERROR"] and 0 <= codes["SERVFAIL"] < 256, "response_codes.SERVFAIL / NOERROR changed")
+    check_fail(ctx, w, codes)
+    check_errors(ctx, w, codes)
+
+
+# ---------------------------------------------------------------------------------------------------
+# R27.3 framing
+
+
+def feed(w: DNSWorld, sender, stream, comp):
+    """deliver ``stream`` in segments of the given lengths -> (decoded byte strings in order, first exception or None, steps)"""
+    got, pos, steps = [], 0, []
+    for ln in comp:
+        st = w.data(sender, stream[pos:pos + ln])
+        pos += ln
+        steps.append(st)
+        got += [d for d, _ in st.decoded]
+        if st.exc:
+            return got, st.exc, steps
+    return got, None, steps
+
+
+def silent_afterwards(w: DNSWorld, sender):
+    """the layer has ended: whatever arrives now causes no command, no decoding, no exception"""
+    probes = [w.data(sender, w.wire(toy_wire(0x0042, False, 0, True, 0, b"later.example"))), w.data("server" if sender == "client" else "client", w.wire(toy_wire(0x0042, True, 0, True, 0, b"later.example"))),
+              w.closed(sender), w.closed("server" if sender == "client" else "client")]
+    for p in probes:
+        if p.exc or p.visible() or p.decoded:
+            return False, p
+    return True, None
+
+
+def check_r273(ctx, w: DNSWorld):
+    thorough = ctx.tier == "thorough"
+    v = Verdicts(ctx, "R27.3", _where(ctx, LAYER, "DNSLayer"))
+    # (payloads, directions): every cut position of a two-frame stream in every combination; more shapes in the thorough tier
+    # quick tier: the first stream from the client under all 64 segmentations; from the server, and the second stream, in <= 3 segments
+    streams = [([b"ab", b"c"], ("client", "server")), ([b"q", b"he"], ("client", "server") if thorough else ("client",))]
     if thorough:
-        streams.append(([b"a", b"bc", b"d"], b"\x00\x02e"))
-    bad = {}
+        streams += [([b"abc", b"z"], ("client", "server")), ([b"a", b"bc", b"d"], ("client", "server")), ([b"xyz", b"uv"], ("client", "server"))]
     n_seg = 0
-    for payloads, tail in streams:
-        stream = frames(payloads) + tail
+    C_SEG = "TCP: the decoded messages do not depend on the segmentation"
+    for payloads, senders in streams:
+        stream = frames(payloads)
         for comp in compositions(len(stream)):
             n_seg += 1
-            for from_client in (True, False):
-                layer = h.fresh("tcp")
-                got, pos, failed = [], 0, None
-                for ln in comp:
-                    r = h.feed(layer, stream[pos:pos + ln], from_client)
-                    pos += ln
-                    if r[0] == "raise":
-                        failed = r[1]
-                        break
-                    got += r[1]
-                rest = {b: bytes(v) for b, v in layer["attrs"].items() if v}
-                # exactly the complete frames, in order; the incomplete tail (and nothing else) stays in ONE buffer
-                if failed or got != payloads or sorted(rest.values()) != ([tail] if tail else []):
-                    bad.setdefault("segmentation changes the extracted messages", (payloads, tail, comp, from_client, failed, got, rest))
-            ctx.cells += 2
+            for sender in senders:
+                if not thorough and len(comp) > 3 and (sender == "server" or payloads is not streams[0][0]):
+                    continue
+                w.new("tcp")
+                got, exc, steps = feed(w, sender, stream, comp)
+                ctx.cells += 1
+                # every prefix of the stream: exactly the complete frames so far have been decoded
+                v.expect(exc is None and got == payloads, C_SEG,
+                         lambda: f"stream of frames {payloads} from the {sender} delivered in segments of lengths {comp}: decoded {got}{' then raised ' + exc if exc else ''}; expected exactly {payloads}",
+                         desc="unpack(tcp): all segmentations of short framed streams, both directions, decode identical messages")
+                if sender == "client" and exc is None:
+                    hooks = [h[3].__dict__.get("id") for s in steps for h in s.hooks("DnsRequestHook") if isinstance(h[3], Rec)]
+                    v.expect(hooks == [toy_decode(p)["id"] for p in got], "TCP: every decoded client message is reported once, in order",
+                             lambda: f"frames {payloads} in segments {comp}: request hooks for ids {hooks}, decoded {got}")
     # a 2-byte length > 255 (endianness) with cuts around the prefix and the end
-    big = bytes(range(256)) + b"!!"
+    big = bytes(range(200)) + bytes(range(58))
     stream = frames([big, b"k"])
     for cut in (1, 2, 3, 259, 260, 261, 262, 263):
-        layer = h.fresh("tcp")
-        got = []
-        for seg in (stream[:cut], stream[cut:]):
-            r = h.feed(layer, seg, True)
-            got = got + r[1] if r[0] == "ok" else ["raise " + r[1]]
+        w.new("tcp")
+        got, exc, _ = feed(w, "client", stream, (cut, len(stream) - cut))
         ctx.cells += 1
-        if got != [big, b"k"]:
-            bad.setdefault("258-byte frame is not extracted (length prefix byte order / arithmetic)", ([b"<258 bytes>", b"k"], b"", (cut, len(stream) - cut), True, None, [g if len(g) < 10 else f"<{len(g)} bytes>" for g in got], {}))
-    for why, (payloads, tail, comp, from_client, failed, got, rest) in bad.items():
-        ctx.fail("R27.3", where, why,
-                 f"stream of frames {payloads} + tail {tail!r} from the {'client' if from_client else 'server'} delivered in segments of lengths {comp}: "
-                 f"extracted {got}{' then raised ' + failed if failed else ''}, buffers left {rest}; expected exactly {payloads} and tail {tail!r} retained")
-    if not bad:
-        ctx.ok("R27.3", f"unpack_message(tcp): {n_seg} segmentations x 2 directions of {len(streams)} streams + 8 cuts of a 258-byte frame extract identical messages")
+        v.expect(exc is None and got == [big, b"k"], "TCP: a 258-byte frame is extracted (length prefix byte order / arithmetic)",
+                 lambda: f"a 258-byte frame followed by a 1-byte frame, cut after {cut} bytes: decoded {[g if len(g) < 10 else f'<{len(g)} bytes>' for g in got]}{' then raised ' + exc if exc else ''}",
+                 desc="unpack(tcp): 258-byte frame + 1-byte frame under 8 cuts")
     # directions do not share state
     c_stream, s_stream = frames([b"CLIENT"]), frames([b"SERVER!"])
-    okdir = True
-    detail = ""
-    for cc in range(1, len(c_stream)):
-        for sc in range(1, len(s_stream)):
-            layer = h.fresh("tcp")
-            seq = [(c_stream[:cc], True), (s_stream[:sc], False), (c_stream[cc:], True), (s_stream[sc:], False)]
-            outs = {True: [], False: []}
-            for seg, fc in seq:
-                r = h.feed(layer, seg, fc)
-                if r[0] != "ok":
-                    outs[fc].append("raise " + r[1])
-                else:
-                    outs[fc] += r[1]
+    for cc in range(1, len(c_stream), 1 if thorough else 2):
+        for sc in range(1, len(s_stream), 1 if thorough else 2):
+            w.new("tcp")
+            outs = {"client": [], "server": []}
+            for seg, sender in ((c_stream[:cc], "client"), (s_stream[:sc], "server"), (c_stream[cc:], "client"), (s_stream[sc:], "server")):
+                st = w.data(sender, seg)
+                outs[sender] += [d for d, _ in st.decoded] + (["raise " + st.exc] if st.exc else [])
             ctx.cells += 1
-            if outs != {True: [b"CLIENT"], False: [b"SERVER!"]} and okdir:
-                okdir = False
-                detail = f"client segments {c_stream[:cc]!r},{c_stream[cc:]!r} interleaved with server segments {s_stream[:sc]!r},{s_stream[sc:]!r} yield client={outs[True]} server={outs[False]}"
-    ctx.check(okdir, "R27.3", where, "interleaved directions are framed independently", f"partial frames of the two directions are mixed: {detail}",
-              desc="unpack_message(tcp): interleaved partial frames of both directions stay separate")
-    # zero length prefix
-    handled = handled_framing_exceptions(ctx)
-    okz = True
-    detail = ""
-    for stream in (b"\x00\x00", frames([b"ok"]) + b"\x00\x00rest"):
+            v.expect(outs == {"client": [b"CLIENT"], "server": [b"SERVER!"]}, "interleaved directions are framed independently",
+                     lambda: f"partial frames of the two directions are mixed: client segments {c_stream[:cc]!r},{c_stream[cc:]!r} interleaved with server segments {s_stream[:sc]!r},{s_stream[sc:]!r} "
+                     f"decode client={outs['client']} server={outs['server']}", desc="unpack(tcp): interleaved partial frames of both directions stay separate")
+    # malformed: zero length prefix under every segmentation, from either side; a message the codec rejects
+    C_BAD = "malformed message: CloseConnection(event.connection); state_done"
+    bad_streams = [(b"\x00\x00", []), (frames([b"k"]) + b"\x00\x00r", [b"k"])]
+    for stream, may_decode in bad_streams:
         for comp in compositions(len(stream)):
-            layer = h.fresh("tcp")
-            pos, res = 0, None
-            for ln in comp:
-                r = h.feed(layer, stream[pos:pos + ln], True)
-                pos += ln
-                if r[0] == "raise":
-                    res = r[1]
-                    break
+            for sender in ("client", "server") if thorough or len(stream) < 4 else ("client",):
+                if not thorough and len(comp) > 3:
+                    continue
+                w.new("tcp")
+                ctx.cells += 1
+                got, pos, closed_at, trouble = [], 0, None, None
+                for i, ln in enumerate(comp):
+                    st = w.data(sender, stream[pos:pos + ln])
+                    pos += ln
+                    got += [d for d, _ in st.decoded]
+                    if st.exc:
+                        trouble = f"segment {i + 1} raises {st.exc}"
+                        break
+                    closes = [e[1] for e in st.trace if e[0] == "close"]
+                    if closed_at is not None and (st.visible() or st.decoded):
+                        trouble = f"after closing, segment {i + 1} still causes {st.show()}"
+                        break
+                    if closes and closed_at is None:
+                        closed_at = pos
+                        if closes != [sender]:
+                            trouble = f"closes {closes}, not the sender"
+                            break
+                ok = trouble is None and closed_at is not None and got == may_decode[:len(got)]
+                if ok:
+                    quiet, p = silent_afterwards(w, sender)
+                    if not quiet:
+                        ok, trouble = False, f"the layer keeps running after the malformed message: a later event causes {p.show()}{' / decodes ' + str([d for d, _ in p.decoded]) if p.decoded else ''}"
+                v.expect(ok, C_BAD,
+                         lambda: f"TCP stream {stream!r} (zero length prefix) from the {sender} in segments {comp}: {trouble or ('decoded ' + str(got) + (', connection never closed' if closed_at is None else ', closed after ' + str(closed_at) + ' bytes'))}; "
+                         "a malformed length must close the sender's connection (no exception, nothing decoded past it) and stop the layer",
+                         desc="malformed length prefix (every segmentation): sender closed, layer silent afterwards")
+    for proto in ("udp", "tcp"):
+        for sender in ("client", "server"):
+            w.new(proto)
             ctx.cells += 1
-            if res not in handled and okz:
-                okz = False
-                detail = f"stream {stream!r} in segments {comp}: {'no exception' if res is None else 'raises ' + res}; state_query handles only {sorted(handled)}"
-    ctx.check(okz, "R27.3", where, "zero length prefix raises the handled exception", f"a malformed (zero) length prefix does not close the connection: {detail}",
-              desc=f"unpack_message(tcp): zero length prefix raises {sorted(handled)} under every segmentation")
+            st = w.data(sender, w.wire(MALFORMED + b"garbage"))
+            closes = [e[1] for e in st.trace if e[0] == "close"]
+            ok = st.exc is None and closes == [sender] and not st.hooks() and not st.sends()
+            trouble = None
+            if ok:
+                ok, p = silent_afterwards(w, sender)
+                trouble = None if ok else f"a later event causes {p.show()}"
+            v.expect(ok, "undecodable message: CloseConnection(event.connection); state_done", lambda: f"{proto.upper()}: a message from the {sender} that the codec rejects (struct.error) makes the layer do {st.show()}{'; ' + trouble if trouble else ''}; "
+                     "expected: close the sender's connection, process nothing, stay silent", desc="undecodable message (UDP/TCP, either side): sender closed, layer silent afterwards")
     # datagrams
-    layer = h.fresh("udp")
-    outs = []
-    for d in (b"one", b"\x00\x00", b"three"):
-        r = h.feed(layer, d, True)
-        outs.append(r)
-    ctx.cells += 3
-    oku = outs == [("ok", [b"one"]), ("ok", [b"\x00\x00"]), ("ok", [b"three"])] and not any(layer["attrs"].values())
-    ctx.check(oku, "R27.3", where, "one datagram = one message, nothing buffered", f"UDP datagrams are not mapped one-to-one: {outs}, buffers {layer['attrs']}",
-              desc="unpack_message(udp): datagram -> one message, no buffering")
-    ctx.note(f"R27.3 interpreted unpack_message for {h.steps} AST steps")
-    # malformed => close sender, stop
-    sq = ctx.func(LAYER, "DNSLayer.state_query")
-    spec = QuerySpec(loop_vars=SymSpec.loop_vars_of(sq))
-    traces, eng = traces_of(sq, spec)
-    n = 0
-    for trace, how, st in traces:
-        if ("except", "error") not in trace:
-            continue
-        n += 1
-        i = trace.index(("except", "error"))
-        after = trace[i + 1:]
-        closes = [e for e in after if e[0] == "close"]
-        states = [e for e in after if e[0] == "state"]
-        subs = [e for e in after if e[0] in ("sub", "send", "hook")]
-        ok = closes == [("close", sym("event.connection"))] and states[-1:] == [("state", "self.state_done")] and not subs and how == "return"
-        ctx.check(ok, "R27.3", (LAYER, "DNSLayer.state_query", sq), "malformed message: CloseConnection(event.connection); state_done",
-                  f"after an unparsable message the layer does {[e[:2] for e in after if e[0] != 'cond']} ({how}): the sender's connection must be closed and nothing further processed",
-                  desc="state_query: malformed message closes the sender and enters state_done")
-    ctx.require(n >= 1, "state_query: no handler path for the framing exception found")
-    sd = ctx.func(LAYER, "DNSLayer.state_done")
-    loud = [y for y in yields_in(sd) if not (isinstance(y, ast.YieldFrom) and isinstance(y.value, ast.Tuple) and not y.value.elts)]
-    ctx.check(not loud, "R27.3", (LAYER, "DNSLayer.state_done", sd), "state_done yields nothing", "the finished DNS layer still emits commands", desc="state_done is silent")
-
-
-def handled_framing_exceptions(ctx) -> set:
-    sq = ctx.func(LAYER, "DNSLayer.state_query")
-    out = set()
-    for n in walk_in_order(sq):
-        if isinstance(n, ast.Try) and any(isinstance(c, ast.Call) and attr_chain(c.func) == "self.unpack_message" for s in n.body for c in ast.walk(s)):
-            for h in n.handlers:
-                if h.type is None:
-                    out |= {"error", "Exception"}
-                else:
-                    out |= {last_attr(x) for x in (h.type.elts if isinstance(h.type, ast.Tuple) else [h.type])}
-    if not out:
-        raise AnalysisError("state_query no longer guards unpack_message with try/except")
-    return out
+    for sender in ("client", "server"):
+        w.new("udp")
+        outs = []
+        for d in (b"one", b"\x00\x00", b"\x00\x05he", b"three"):
+            st = w.data(sender, d)
+            outs.append(([x for x, _ in st.decoded], st.exc, [e for e in st.trace if e[0] == "close"]))
+            ctx.cells += 1
+        v.expect(outs == [([b"one"], None, []), ([b"\x00\x00"], None, []), ([b"\x00\x05he"], None, []), ([b"three"], None, [])], "one datagram = one message, nothing buffered",
+                 lambda: f"UDP datagrams from the {sender} are not mapped one-to-one: (decoded, exception, closes) per datagram = {outs}", desc="unpack(udp): datagram -> one message, no buffering")
+    ctx.bounds.append(f"R27.3: {n_seg} segmentations of {len(streams)} framed streams (<= {max(len(frames(s)) for s, _ in streams)} bytes), "
+                      + ("all of them from the client and the server" if thorough else "all of the first stream from the client; from the server and for the second stream those with <= 3 segments")
+                      + f", 8 cuts of a 258-byte frame, {'all' if thorough else '<= 3-segment'} segmentations of {len(bad_streams)} streams with a zero length prefix")
+    v.flush()
 
 
 def check(ctx):
-    ctx.rule("R27.1", "flows are created/registered only for client queries; replies reach handle_response only via self.flows[msg.id]; request stored before hooks")
-    ctx.rule("R27.2", "DNSMessage.fail echoes id/op_code/RD/questions with QR=1; handle_error sends flow.request.fail(SERVFAIL) to the client")
-    ctx.rule("R27.3", "unpack_message: segmentation/direction independent frame extraction (finite evaluation), malformed length closes the sender and stops")
-    ctx.trust("struct.Struct.unpack_from (Python stdlib) for the length label")
-    check_r271(ctx)
-    check_r272(ctx)
-    check_r273(ctx)
-    for rule, n in (("R27.1", 6), ("R27.2", 7), ("R27.3", 6)):
+    ctx.rule("R27.1", "hooks fire only for flows carrying the client's query; replies are matched to the client's query by message id, unsolicited replies are dropped (bounded model check by interpretation)")
+    ctx.rule("R27.2", "DNSMessage.fail echoes id/op_code/RD/questions with QR=1; every upstream failure sends fail(SERVFAIL) of the client's query to the client after the error hook")
+    ctx.rule("R27.3", "TCP frame extraction is independent of segmentation and direction (finite evaluation), datagrams map one-to-one, a malformed length / message closes the sender and stops the layer")
+    ctx.trust("struct (Python stdlib) for the length prefix; time / uuid replaced by deterministic stubs")
+    ctx.assume("DNSMessage.unpack / DNSMessage.packed are replaced by a toy bijection between bytes and message records (the codec is C25/C26's subject)")
+    _note_functions(ctx)
+    w = DNSWorld(ctx)
+    ctx.guard(check_r271, ctx, w)
+    ctx.guard(check_r272, ctx, w)
+    ctx.guard(check_r273, ctx, w)
+    for v in list(ctx.__dict__.get("_open_verdicts", [])):
+        # a rule stopped at something it does not model (deferred above): counterexamples found before that still stand and take precedence
+        v.flush(only_failures=True)
+    ctx.note(f"interpreted {w.runs} layer runs / {w.events} events for {w.total_steps()} AST steps")
+    for rule, n in (("R27.1", 11), ("R27.2", 10), ("R27.3", 7)):
         if not any(f.rule == rule for f in ctx.findings):
             ctx.expect_instances(rule, n)
 
@@ -493,6 +829,13 @@ MUTANTS = [
     Mutant("directions-swapped", LAYER, "                    if from_client:\n                        yield from self.handle_request(flow, msg)\n", "                    if not from_client:\n                        yield from self.handle_request(flow, msg)\n", "R27.1"),
     Mutant("request-hook-before-request-set", LAYER, "        flow.request = msg  # if already set, continue and query upstream again\n        yield DnsRequestHook(flow)\n",
            "        yield DnsRequestHook(flow)\n        flow.request = msg\n", "R27.1"),
+    Mutant("reply-matched-by-opcode", LAYER, "                        flow = self.flows[msg.id]\n", "                        flow = self.flows[msg.id if from_client else msg.op_code]\n", "R27.1"),
+    # F-C27b (repaired): the reverse of the fix, and half of it
+    Mutant("id-reuse-replays-previous-exchange", LAYER,
+           "                        if from_client and (flow.response or flow.error):\n                            # the exchange with this id is complete: the client re-uses the id for a new query.\n                            flow.live = False\n                            raise KeyError(msg.id)\n",
+           "", "R27.1"),
+    Mutant("id-reuse-after-error-not-recognised", LAYER, "if from_client and (flow.response or flow.error):", "if from_client and flow.response:", "R27.1"),
+    Mutant("id-reuse-after-answer-not-recognised", LAYER, "if from_client and (flow.response or flow.error):", "if from_client and flow.error:", "R27.1"),
     # R27.2
     Mutant("servfail-id-zero", DNS, "            id=self.id,\n            query=False,\n            op_code=self.op_code,\n            authoritative_answer=False,\n            truncation=False,\n            recursion_desired=self.recursion_desired,\n            recursion_available=False,",
            "            id=0,\n            query=False,\n            op_code=self.op_code,\n            authoritative_answer=False,\n            truncation=False,\n            recursion_desired=self.recursion_desired,\n            recursion_available=False,", "R27.2"),
@@ -502,6 +845,8 @@ MUTANTS = [
            "            query=True,\n            op_code=self.op_code,\n            authoritative_answer=False,\n            truncation=False,\n            recursion_desired=self.recursion_desired,\n            recursion_available=False,", "R27.2"),
     Mutant("servfail-sent-upstream", LAYER, "        yield commands.SendData(\n            self.context.client,\n            pack_message(servfail,", "        yield commands.SendData(\n            self.context.server,\n            pack_message(servfail,", "R27.2"),
     Mutant("error-answers-with-noerror-template", LAYER, "servfail = flow.request.fail(response_codes.SERVFAIL)", "servfail = flow.request.succeed([])", "R27.2"),
+    Mutant("servfail-before-error-hook", LAYER, "        yield DnsErrorHook(flow)\n        servfail = flow.request.fail(response_codes.SERVFAIL)\n        yield commands.SendData(\n            self.context.client,\n            pack_message(servfail, flow.client_conn.transport_protocol),\n        )\n",
+           "        servfail = flow.request.fail(response_codes.SERVFAIL)\n        yield commands.SendData(\n            self.context.client,\n            pack_message(servfail, flow.client_conn.transport_protocol),\n        )\n        yield DnsErrorHook(flow)\n", "R27.2"),
     # R27.3
     Mutant("frame-needs-one-more-byte", LAYER, "                if size - offset < expected_size:\n", "                if size - offset <= expected_size:\n", "R27.3"),
     Mutant("incomplete-frame-no-rewind", LAYER, "                    offset -= _LENGTH_LABEL.size\n                    break\n", "                    break\n", "R27.3"),
@@ -513,4 +858,6 @@ MUTANTS = [
     Mutant("malformed-keeps-connection", LAYER, "                yield commands.CloseConnection(event.connection)\n                self._handle_event = self.state_done\n", "                self._handle_event = self.state_done\n", "R27.3"),
     Mutant("malformed-keeps-running", LAYER, "                yield commands.CloseConnection(event.connection)\n                self._handle_event = self.state_done\n", "                yield commands.CloseConnection(event.connection)\n", "R27.3"),
     Mutant("prefix-split-loses-byte", LAYER, "                if size - offset < _LENGTH_LABEL.size:\n                    break\n", "                if size - offset < _LENGTH_LABEL.size:\n                    offset = size\n                    break\n", "R27.3"),
+    Mutant("malformed-closes-the-other-side", LAYER, "                yield commands.CloseConnection(event.connection)\n                self._handle_event = self.state_done\n",
+           "                yield commands.CloseConnection(self.context.server if from_client else self.context.client)\n                self._handle_event = self.state_done\n", "R27.3"),
 ]
